@@ -66,6 +66,8 @@ class Engine:
         self.solver.push()
         self.pushed = True
         self.prefix = list(prefix)
+        self.prefix_hash = []
+        self.trace_hash = []
         self.trace = []
         self.both = []
         self.model = None
@@ -111,8 +113,13 @@ class Engine:
             raise Unsupported('decision budget exceeded on one path')
         if i < len(self.prefix):
             w = self.prefix[i]
+            if i < len(self.prefix_hash) and self.prefix_hash[i] != c.hash():
+                # the same decision prefix must meet the same conditions: otherwise the code under test (or the harness) keeps state
+                # across executions and the path tree is not well defined
+                raise Unsupported('re-execution of a decision prefix met a different condition at decision %d (state kept across calls?)' % i)
             self.solver.add(c if w else z3.Not(c))
             self.trace.append(w)
+            self.trace_hash.append(c.hash())
             self.both.append(False)
             return w
         known = None
@@ -146,6 +153,7 @@ class Engine:
         self.solver.add(c if w else z3.Not(c))
         self.model = mt if w else mf
         self.trace.append(w)
+        self.trace_hash.append(c.hash())
         self.both.append(t and f)
         return w
 
